@@ -399,7 +399,8 @@ func runC11(c *Ctx, r *Report, tier string) {
 		r.Fail("CHOICE", sn, "membership flag", "", "no boolean set to true found in Set")
 	}
 	for _, ret := range trueRets {
-		_, ok := c.Requires(set, isInstr(ret), eqLit, nil)
+		// (a verdict helper also answers "allowed" when no choices are declared at all)
+		_, ok := c.Requires(set, isInstr(ret), anyLit(eqLit, litIs("nonempty(Option.Choices(P0))", false)), nil)
 		r.Check(ok, "CHOICE", sn, "found only on string equality with a declared choice", c.ipos(ret), "return true REQ(choice == *value)", "membership can be established without exact equality")
 	}
 	for _, pb := range trueEdges {
